@@ -16,6 +16,7 @@
     objkind <cfg> <owner> <prop|@self>      internal representation "<class>:<objectClass>:<Go type of value>" (hook)
     kind   <cfg> <owner> <aspect>           behaviour of a start-up object as the special object ES5 says it is (on a throw-away Copy)
     beh    <cfg> <name>                     the same behaviours for arrays / String objects / arguments objects the language creates
+    route  <cfg> <Ctor>_<route>             a constructor driven through one [[Call]] / [[Construct]] route: what it creates
     dynfn  <cfg> <kind> <L> <n> <field>     shape of a function object created at run time (L parameters, n bound arguments)
   <cfg> ∈ fresh fresh2 under copy copy2 usedcopy undercopy; the tables do not depend on it except for the
   user globals (`_`, `userFn`, `userGlobal`) that for-in over the global object rightly shows.
@@ -55,7 +56,8 @@ def listAll : String :=
   let ks := (Spec.flatten Model.kindTable).map (fun (o, p, _) => "objkind/" ++ o.path ++ "/" ++ p)
   let as := Spec.Owner.all.flatMap (fun o => (Spec.aspectsOf o).map (fun a => "kind/" ++ o.path ++ "/" ++ a))
   let be := Spec.behaviours.map (fun (k, _) => "beh/" ++ k)
-  ",".intercalate (es ++ os ++ fi ++ li ++ bs ++ ss ++ ks ++ as ++ be)
+  let ro := Spec.routes.map (fun (k, _) => "route/" ++ k)
+  ",".intercalate (es ++ os ++ fi ++ li ++ bs ++ ss ++ ks ++ as ++ be ++ ro)
 
 def isFnSlot (t : Spec.Slot) : Bool :=
   match t.val with
@@ -115,6 +117,10 @@ def handleO (ws : List String) : Option String :=
     guard (cfgs.contains cfg)
     let sp ← Spec.assoc k Spec.behaviours
     pure (reply (orAbsent (Spec.assoc k Model.behaviours)) sp "-")
+  | ["route", cfg, k] => do
+    guard (cfgs.contains cfg)
+    let sp ← Spec.assoc k Spec.routes
+    pure (reply (orAbsent (Spec.assoc k Model.routes)) sp "-")
   | ["static", cfg, "order"] => do guard (cfgs.contains cfg); pure (reply "consistent" "consistent" "-")
   | ["static", cfg, "eval"] => do guard (cfgs.contains cfg); pure (reply "ok" "ok" "-")
   | ["same", a, b] => do guard (cfgs.contains a ∧ cfgs.contains b); pure (reply "equal" "equal" "-")
